@@ -310,41 +310,54 @@ func c04r2(c *core.Ctx) {
 		g := core.Callee(kdfCall)
 		order := "?"
 		for _, cl := range g.AnonFuncs {
-			var seq []string
+			// simulate the hash objects of the (straight-line) closure: what each one has been fed, digests as nested terms
+			fed := map[ssa.Value][]string{}
+			digest := map[ssa.Value]string{}
+			tok := func(a ssa.Value) string {
+				switch {
+				case a == ssa.Value(cl.Params[0]):
+					return "salt"
+				case a == ssa.Value(cl.Params[1]):
+					return "P"
+				}
+				if s, ok := core.ConstString(a); ok {
+					return fmt.Sprintf("%q", s)
+				}
+				if d, ok := digest[a]; ok {
+					return d
+				}
+				if core.AnySource(a, func(v ssa.Value) bool { pa, ok := v.(*ssa.Parameter); return ok && pa.Parent() == g }) {
+					return "I"
+				}
+				return "?"
+			}
 			core.Instrs(cl, func(i ssa.Instruction) {
+				if ret, ok := i.(*ssa.Return); ok && len(ret.Results) == 1 {
+					order = tok(ret.Results[0])
+					return
+				}
 				cc := core.CallOf(i)
 				if cc == nil || !cc.IsInvoke() {
 					return
 				}
 				switch cc.Method.Name() {
 				case "Write":
-					a := cc.Args[0]
-					switch {
-					case a == ssa.Value(cl.Params[0]):
-						seq = append(seq, "salt")
-					case a == ssa.Value(cl.Params[1]):
-						seq = append(seq, "P")
-					default:
-						if s, ok := core.ConstString(a); ok {
-							seq = append(seq, fmt.Sprintf("%q", s))
-						} else if core.AnySource(a, func(v ssa.Value) bool { _, ok := v.(*ssa.Parameter); return ok && v.(*ssa.Parameter).Parent() == g }) {
-							seq = append(seq, "I")
-						} else if call, ok := a.(*ssa.Call); ok && call.Call.IsInvoke() && call.Call.Method.Name() == "Sum" {
-							seq = append(seq, "inner")
-						} else {
-							seq = append(seq, "?")
-						}
-					}
+					fed[cc.Value] = append(fed[cc.Value], tok(cc.Args[0]))
 				case "Sum":
-					seq = append(seq, "Sum")
+					pre := ""
+					if !core.IsNilConst(cc.Args[0]) {
+						pre = "?prefix "
+					}
+					if v, ok := i.(ssa.Value); ok {
+						digest[v] = pre + "H(" + strings.Join(fed[cc.Value], " ") + ")"
+					}
 				case "Reset":
-					seq = append(seq, "Reset")
+					fed[cc.Value] = nil
 				}
 			})
-			order = strings.Join(seq, " ")
 		}
-		want := `I ":" P Sum Reset salt inner Sum`
-		c.Check(order == want, "srp-kdf-order", g.Pos(), "x = H(s | H(I ':' P))", fmt.Sprintf("the KDF hashes %q, SRP-6a as HAP uses it is %q", order, want))
+		want := `H(salt H(I ":" P))`
+		c.Check(order == want, "srp-kdf-order", g.Pos(), "x = H(s | H(I ':' P))", fmt.Sprintf("the KDF computes %s, SRP-6a as HAP uses it is %s: the verifier does not depend on the identity and the setup code the way the controller's does (no controller can pair — or any code is accepted)", order, want))
 	}
 	// salt length
 	sl := int64(-1)
